@@ -227,10 +227,74 @@ NODEID_CTORS = {'node_id::NodeId::item': 'item', 'node_id::NodeId::tree': 'tree'
                 'node_id::NodeId::metadata': 'metadata', 'node_id::NodeId::version': 'version'}
 
 
-def key_info(t):
+import threading
+
+_TLS = threading.local()
+
+
+class _Cur:
+    """facts of the configuration being analysed by the current thread"""
+
+    def __getitem__(self, i):
+        return getattr(_TLS, 'F', None)
+
+
+CURRENT_F = _Cur()
+
+
+def set_facts(F):
+    _TLS.F = F
+
+
+def subst(t, mapping):
+    """replace ('arg', n, ..) leaves of a callee's term by the caller's argument terms"""
+    if not isinstance(t, tuple) or not t:
+        return t
+    if t[0] == 'arg':
+        return mapping.get(t[1], ('unknown', 'arg'))
+    out = []
+    for x in t:
+        if isinstance(x, tuple):
+            out.append(subst(x, mapping))
+        elif isinstance(x, list):
+            out.append([subst(y, mapping) if isinstance(y, tuple) and y and isinstance(y[0], str) else
+                        ((y[0], subst(y[1], mapping)) if isinstance(y, tuple) and len(y) == 2 and isinstance(y[1], tuple) else y) for y in x])
+        else:
+            out.append(x)
+    return tuple(out)
+
+
+def inline_helper(t, depth=0):
+    """when `t` is a call to a small in-crate function with a single, loop-free return, the returned term with the
+    arguments substituted (so `self.item_key(id)` is seen as `Key::item(self.index, id)`); else None"""
+    F = CURRENT_F[0]
+    if F is None or depth > 2:
+        return None
+    t0 = strip(t)
+    if t0[0] != 'call' or t0[1] not in F.fns or t0[1] in KEY_CTORS:
+        return None
+    g = F.fns[t0[1]]
+    if g.n > 14 or g.in_test:
+        return None
+    import paths
+    rets = [(b, k, rt) for b, k, rt in paths.ret_assigns(g)]
+    if len(rets) != 1 or rets[0][1] in ('err', 'residual'):
+        return None
+    rt = rets[0][2]
+    if rt[0] == 'call' and rets[0][1] == 'call':
+        pass
+    mapping = {i + 1: a for i, a in enumerate(t0[2])}
+    return subst(rt, mapping)
+
+
+def key_info(t, _depth=0):
     """(kind, index_term, id_term|None) when `t` is built by a Key/Prefix constructor, else None.
-    Looks through refs and single-definition temporaries."""
+    Looks through refs, single-definition temporaries and small in-crate helper functions."""
     t = strip(t)
+    if t[0] == 'call' and t[1] not in KEY_CTORS and _depth < 2:
+        it = inline_helper(t, _depth)
+        if it is not None:
+            return key_info(it, _depth + 1)
     if t[0] == 'call' and t[1] in KEY_CTORS:
         kind = KEY_CTORS[t[1]]
         idx = t[2][0] if t[2] else None
